@@ -4,7 +4,9 @@ import (
 	"bufio"
 	"bytes"
 	"encoding/json"
+	"errors"
 	"fmt"
+	"io"
 	"net/http"
 	"regexp"
 	"sort"
@@ -130,6 +132,15 @@ func rulesTok(rules []string) string {
 	return core.JoinList(hx)
 }
 
+// tornHeadEOF is the `eof` parameter of the model's head-cut faults, decided by the parser the proxy reads
+// replies with: does http.ReadResponse find the first bytes of a torn reply well-formed as far as they go
+// and report the end of input (io.ErrUnexpectedEOF: the cut falls behind a complete line or behind the
+// colon of a field line), or does it take the last, partial line for a malformed one?
+func tornHeadEOF(prefix []byte) bool {
+	_, err := http.ReadResponse(bufio.NewReader(bytes.NewReader(prefix)), nil)
+	return errors.Is(err, io.EOF) || errors.Is(err, io.ErrUnexpectedEOF)
+}
+
 // faults returns the fault tokens the observation may correspond to: the intended one first, then,
 // for resets, the ones that arise when the reset overtakes bytes or surfaces as such.
 func (c *Case) faults(observedBody int) []string {
@@ -168,13 +179,15 @@ func (c *Case) faults(observedBody int) []string {
 			k := c.CK - pr.headLen
 			fs := []string{fmt.Sprintf("connect:rejected-cut:%d:%d:%d", pr.status, pr.bodyLen, min(k, max(observedBody, 0)))}
 			if c.CReset {
-				fs = append(fs, "connect:cut:0:1:0", "connect:cut:1:1:0", "connect:cut:1:1:1")
+				// a reset may overtake bytes already sent: the reader saw any prefix of them
+				fs = append(fs, "connect:cut:0:1:0:0", "connect:cut:1:1:0:0", "connect:cut:1:1:0:1", "connect:cut:1:1:1:0")
 			}
 			return fs
 		}
-		fs := []string{fmt.Sprintf("connect:cut:%d:%s:0", c.CK, crst)}
+		fs := []string{fmt.Sprintf("connect:cut:%d:%s:0:%s", c.CK, crst, core.B01(tornHeadEOF(reply[:c.CK])))}
 		if c.CReset {
-			fs = append(fs, fmt.Sprintf("connect:cut:%d:1:1", c.CK), "connect:cut:0:1:0")
+			fs = append(fs, fmt.Sprintf("connect:cut:%d:1:1:0", c.CK), "connect:cut:0:1:0:0",
+				fmt.Sprintf("connect:cut:%d:1:0:%s", c.CK, core.B01(!tornHeadEOF(reply[:c.CK]))))
 		}
 		return fs
 	case "cut":
@@ -188,9 +201,11 @@ func (c *Case) faults(observedBody int) []string {
 			k = total
 		}
 		if k < head {
-			fs := []string{fmt.Sprintf("head-cut:%d:%s:0", k, rst)}
+			eof := tornHeadEOF(c.reply()[:k])
+			fs := []string{fmt.Sprintf("head-cut:%d:%s:0:%s", k, rst, core.B01(eof))}
 			if c.Reset {
-				fs = append(fs, fmt.Sprintf("head-cut:%d:1:1", k), "head-cut:0:1:0")
+				// a reset may overtake bytes already sent: the reader saw any prefix of them
+				fs = append(fs, fmt.Sprintf("head-cut:%d:1:1:0", k), "head-cut:0:1:0:0", fmt.Sprintf("head-cut:%d:1:0:%s", k, core.B01(!eof)))
 			}
 			return fs
 		}
@@ -213,7 +228,7 @@ func (c *Case) faults(observedBody int) []string {
 			fs = append(fs, fmt.Sprintf("body-cut:%d:%s:%d", pay, rst, lost))
 		}
 		if c.Reset {
-			fs = append(fs, "head-cut:0:1:0", "head-cut:1:1:0", "head-cut:1:1:1")
+			fs = append(fs, "head-cut:0:1:0:0", "head-cut:1:1:0:0", "head-cut:1:1:0:1", "head-cut:1:1:1:0")
 		}
 		return fs
 	}
@@ -439,27 +454,14 @@ func knownClass(c *Case) string {
 				return "eof-body-reset" // F13
 			}
 		}
-	case "connect":
-		if c.Via == "connect" && c.Fault == "stall" {
-			return "connect-reply-timeout" // F34
-		}
-	case "reply":
-		if c.At != "connect" {
-			method := c.Method
-			if method == "" {
-				method = "GET"
-			}
-			if m := meaningOf(c.replyBytes(), method, true); m.reject == "" && m.status == 101 && !m.switchP {
-				return "switching-protocols-not-a-switch" // F42
-			}
-		}
 	case "tls", "label":
 		if c.Kind == "label" && c.What != "tls" {
 			return ""
 		}
-		switch c.Fault {
-		case "garbage", "closed", "stall":
-			return "tls-failure-untyped" // F33
+		if c.Fault == "garbage" {
+			// F33, the part still open: crypto/tls reports what it detects itself as errors.New("tls: …")
+			// (the peer closing and the handshake time-out are repaired: 502 and 504)
+			return "tls-failure-untyped"
 		}
 	}
 	return ""
@@ -548,6 +550,10 @@ func judgeFault(ctx *core.Ctx, c *Case, o *Obs) {
 		ctx.Count("cut/" + c.Framing + "/" + where + map[bool]string{true: "/rst", false: "/fin"}[c.Reset])
 	} else if c.Fault != "" {
 		ctx.Count(c.Kind + "/" + c.Fault)
+	}
+	if c.ReqMinor > 1 {
+		// regression target (F36, repaired): the version of the request line is not echoed
+		ctx.Count(fmt.Sprintf("odd-version-request/%s/%s", c.Kind, c.Via))
 	}
 	if _, ok := c.transportRejection(); ok {
 		// regression target (F12, repaired): how often the run exercises the relay of a transport-level rejection
@@ -740,13 +746,13 @@ func checkErrorShape(ctx *core.Ctx, c *Case, s *seen, fail func(clause, detail s
 		return
 	}
 	msg := strings.TrimSuffix(strings.TrimPrefix(body, name+" "), tail)
-	minor := 1
-	if res.Proto == "HTTP/1.0" {
-		minor = 0
-	}
-	ans := ctx.Model.MustAsk("C12", "errresp", "name="+core.HexS(name), "minor="+core.Itoa(minor), "close="+core.B01(c.reqClose()),
+	// the version the REQUEST line named: the model applies proxyutil.SetProto to it
+	ans := ctx.Model.MustAsk("C12", "errresp", "name="+core.HexS(name), "major=1", "minor="+core.Itoa(c.ReqMinor), "close="+core.B01(c.reqClose()),
 		"connect="+core.B01(c.Via == "connect"), "rules="+rulesTok(c.responseRules()), "status="+core.Itoa(res.Status), "msg="+core.HexS(msg), "err="+core.HexS(errText))
 	diffs := wireDiffs(ans, res)
+	if mf := strings.Fields(ans); "HTTP/1."+mf[1] != res.Proto {
+		diffs = append(diffs, fmt.Sprintf("status line: got %s, model HTTP/1.%s", res.Proto, mf[1]))
+	}
 	if len(diffs) > 0 {
 		ctx.Disagree("error response fields = Model.C12.writtenError", c, strings.Join(diffs, "; "), ans)
 	} else {
@@ -801,7 +807,11 @@ func checkRelay(ctx *core.Ctx, c *Case, s *seen, fail func(clause, detail string
 	}
 	res := s.res
 	line := strconv.Quote(strings.SplitN(string(res.HeadBytes), "\r\n", 2)[0])
-	if want := fmt.Sprintf("HTTP/1.%d", c.ReqMinor); res.Proto != want {
+	want := fmt.Sprintf("HTTP/1.%d", c.ReqMinor)
+	if c.ReqMinor > 1 {
+		want = "HTTP/1.1" // a request line naming another version is answered HTTP/1.1
+	}
+	if res.Proto != want {
 		fail(clauseRelay, fmt.Sprintf("status line %s, the request was %s", line, want))
 	}
 	closeTok := false
@@ -842,7 +852,7 @@ func checkRelay(ctx *core.Ctx, c *Case, s *seen, fail func(clause, detail string
 		}
 		ents = append(ents, core.JoinList(atoms))
 	}
-	ans := ctx.Model.MustAsk("C12", "relayresp", "minor="+core.Itoa(c.ReqMinor), "close="+core.B01(c.reqClose()), "rules="+rulesTok(c.responseRules()),
+	ans := ctx.Model.MustAsk("C12", "relayresp", "major=1", "minor="+core.Itoa(c.ReqMinor), "close="+core.B01(c.reqClose()), "rules="+rulesTok(c.responseRules()),
 		"status="+core.Itoa(pr.status), "hdr="+core.JoinList2(ents), "body="+core.Hex(body))
 	diffs := wireDiffs(ans, res)
 	if mf := strings.Fields(ans); mf[0] != strconv.Itoa(res.Status) || "HTTP/1."+mf[1] != res.Proto {
@@ -865,6 +875,8 @@ func checkStatus(ctx *core.Ctx, c *Case, s *seen, fail func(clause, detail strin
 		want = 502
 	case c.Kind == "dial" && c.Fault == "timeout":
 		want = 504
+	case c.Kind == "tls" && c.Fault == "stall":
+		want = 504 // the connection to the remote host is not established in time: a connect time-out
 	case c.Kind == "tls":
 		want = 502
 	case c.Kind == "connect" && c.Fault == "stall":
@@ -924,14 +936,13 @@ func judgeClient(ctx *core.Ctx, c *Case, o *Obs) {
 		if err == nil && res.Complete {
 			n++
 			if res.Proto != "HTTP/1.1" && res.Proto != "HTTP/1.0" {
-				class := ""
-				if oddVersion(c.input()) {
-					class = "request-version-echoed" // F36
-				}
-				ctx.SpecFail(clauseHostile, class, c, impl, "status line with protocol "+res.Proto)
-				if class == "" {
-					return
-				}
+				// (F36, repaired: the version of the request line was echoed)
+				ctx.SpecFail(clauseHostile, "", c, impl, "status line with protocol "+res.Proto)
+				return
+			}
+			if oddVersion(c.input()) {
+				// regression target (F36): request lines naming another version than HTTP/1.0 and HTTP/1.1
+				ctx.Count("client/odd-version-request/answered-" + res.Proto)
 			}
 			if res.Has("X-Forwarder-Error") && res.Framing != "cl" && !bytes.Contains(bytes.ToUpper(c.input()), []byte("HEAD")) {
 				ctx.SpecFail(clauseFramed, "", c, impl, "error response without Content-Length")
@@ -1037,7 +1048,7 @@ func judgeLabel(ctx *core.Ctx, c *Case, o *Obs) {
 	kind := map[string]string{
 		"dial/refused": "refused", "dial/timeout": "op:dial:1",
 		"tls/expired": "tls-cert", "tls/plain-http": "tls-record:1", "tls/alert": "tls-alert-remote", "tls/local-alert": "tls-alert-local",
-		"tls/garbage": "tls-generic", "tls/reset": "reset", "tls/closed": "eof",
+		"tls/garbage": "tls-generic", "tls/reset": "reset", "tls/closed": "eof", "tls/stall": "tls-hs-timeout",
 	}[c.What+"/"+c.Fault]
 	if kind == "" {
 		core.Fatalf("C12: label case without a kind: %+v", c)
